@@ -86,11 +86,11 @@ def run(ctx):
 def run_all(ctx, binp, corr_broken, scale=1, search=False):
     corpus = ":".join(e1util.corpus_files("C04", lambda f: "numeric" in os.path.basename(f) or "num_" in os.path.basename(f)))
     plans = [
-        ("TestVerifNumCorr", "num", ctx.budget(3000, 30000) * scale, {"VERIF_CORPUS": corpus}, "NUM-HIST"),
+        ("TestVerifNumCorr", "num", ctx.budget(8000, 40000) * scale, {"VERIF_CORPUS": corpus}, "NUM-HIST"),
         ("TestVerifMsToDurationCorr", "ms", ctx.budget(1000, 10000) * scale, {}, None),
-        ("TestVerifPQCorr", "pq", ctx.budget(20000, 300000) * scale, {}, "PQ-HIST"),
-        ("TestVerifChanCorr", "chan", ctx.budget(4000, 60000) * scale, {}, "CHAN-HIST"),
-        ("TestVerifUniqCorr", "uniq", ctx.budget(3000, 30000) * scale, {}, None),
+        ("TestVerifPQCorr", "pq", ctx.budget(60000, 400000) * scale, {}, "PQ-HIST"),
+        ("TestVerifChanCorr", "chan", ctx.budget(12000, 100000) * scale, {}, "CHAN-HIST"),
+        ("TestVerifUniqCorr", "uniq", ctx.budget(6000, 40000) * scale, {}, None),
     ]
     for test, stream, n, env, tag in plans:
         ok, ops, impl, out = e1util.run_corr(ctx, binp, test, stream, n, env, timeout=1500)
@@ -133,7 +133,7 @@ def run_all(ctx, binp, corr_broken, scale=1, search=False):
 
 def oracle_key(stream, line):
     w = line.split()
-    return "%s-oracle:%s" % (stream, w[1].rstrip(":") if len(w) > 1 else "")
+    return "%s-oracle:%s" % (stream, re.match(r"[A-Za-z/?=]*", w[1]).group(0) if len(w) > 1 else "")
 
 
 def norm_num_key(op, impl):
